@@ -68,6 +68,7 @@ def run(ctx, rep):
     rep.run(RID.rule_preamble_by_evaluation, ctx, rep, "H22")
     rep.run(RID.rule_registry_keeps_every_class, ctx, rep, "H23")
     rep.run(RID.rule_call_sites_by_evaluation, ctx, rep, "H24", guards=True)
+    rep.run(RH2.rule_no_use_after_destroy, ctx, rep, "H25")
     rep.run(RM.rule_guard_builders_by_evaluation, ctx, rep, "H18")
     rep.run(RID.rule_routines_by_evaluation, ctx, rep, "H19")
     rep.run(RID.rule_property_accessors_by_evaluation, ctx, rep, "H20", parts=("sites", "routines"))
